@@ -421,7 +421,9 @@ def _closed_atoms(ctx, fi, atoms):
         except SyntaxError:
             continue
         names = {n.id for n in ast.walk(node) if isinstance(n, ast.Name)}
-        if names and all(n_ not in fi.all_params and ctx.prog.resolve(fi.module, n_) is not None for n_ in names):
+        if names and all(n_ not in fi.all_params and (ctx.prog.resolve(fi.module, n_) is not None or (
+                fi.cls is not None and (ctx.prog.find_method(fi.cls, n_) is not None or ctx.prog.find_class_attr(fi.cls, n_) is not None)))
+                         for n_ in names):
             out.append(a)
     return out
 
